@@ -61,13 +61,13 @@ def check_stat(ctx, case):
             return
         ctx.count('stat_projection_ok')
     else:
-        if got.shape != want.shape or not np.allclose(got, want, rtol=1e-12, atol=0):
-            bad = int(np.argmax(~np.isclose(got, want, rtol=1e-12, atol=0))) if got.shape == want.shape else -1
+        if got.shape != want.shape or not np.allclose(got, want, rtol=1e-12, atol=0, equal_nan=True):
+            bad = int(np.argmax(~np.isclose(got, want, rtol=1e-12, atol=0, equal_nan=True))) if got.shape == want.shape else -1
             ctx.violation('stat-value:' + fname, 'get_cycle_stat[%d] = %s, %s over the samples labelled %d gives %s (labels %s)'
                           % (bad, got[bad] if bad >= 0 else got.shape, fname, bad, want[bad] if bad >= 0 else want.shape, labels.tolist()[:20]), case)
             return
         ctx.count('stat_value_ok')
-    if not (np.array_equal(l0, labels) and np.array_equal(v0, vals)):
+    if not (np.array_equal(l0, labels) and np.array_equal(v0, vals, equal_nan=True)):
         ctx.violation('stat-mutates-input', 'get_cycle_stat modified its inputs', case)
 
 
@@ -185,6 +185,23 @@ def check_bin(ctx, case):
             ctx.count('empty_bins_ok')
 
 
+def _user(name, f):
+    f.__name__ = name
+    f.__qualname__ = name
+    return f
+
+
+# user-defined reducers that merely *share a name* with a numpy / builtin reducer
+FUNCS.update({
+    'user:amax': _user('amax', lambda v: float(np.max(np.abs(v))) if len(v) else 0.0),
+    'user:max': _user('max', lambda v: float(np.sort(v)[-2]) if len(v) > 1 else float(v[0])),
+    'user:min': _user('min', lambda v: float(np.min(v)) - 1.0),
+    'user:len': _user('len', lambda v: 2 * len(v)),
+    'user:mean': _user('mean', lambda v: float(np.mean(v[:1]))),
+    'user:sum': _user('sum', lambda v: float(np.sum(v ** 2))),
+    'user:median': _user('median', lambda v: float(v[-1])),
+})
+
 KINDS = {'stat': check_stat, 'align': check_align, 'bin': check_bin}
 
 
@@ -194,7 +211,7 @@ def gen_case(rng):
         if rng.random() < .05:
             labels = np.full(int(rng.integers(1, 30)), -1)
         else:
-            labels = gens.label_vector(rng, gaps=bool(rng.random() < .8))
+            labels = gens.label_vector(rng, gaps=bool(rng.random() < .8), ncycles=(int(rng.integers(100, 400)) if rng.random() < .03 else None))
             if rng.random() < .25 and len(labels) > 4:
                 # "any labelling": unlabelled samples *inside* a cycle (the cycle's label resumes afterwards)
                 for _ in range(int(rng.integers(1, 4))):
@@ -215,7 +232,7 @@ def gen_case(rng):
         explicit = bool(rng.random() < .5)
         # without an explicit cycle vector a wrap-free (single-cycle) phase legitimately has no cycles
         while True:
-            ip, lens = monotone_phase(rng, int(rng.integers(1 if explicit else 2, 7)))
+            ip, lens = monotone_phase(rng, int(rng.integers(1 if explicit else 2, 7)) if rng.random() > .03 else int(rng.integers(60, 150)), lmax=(400 if rng.random() > .03 else 60))
             if explicit:
                 break
             # implicit detection needs every cycle boundary to be a wrap of more than 1.5 pi
@@ -238,10 +255,22 @@ def gen_case(rng):
     return c
 
 
+def huge_stat_case(rng):
+    """One long recording with many cycles and a single non-finite value (value vectors are unrestricted)."""
+    K = int(rng.integers(280, 320))
+    labels = np.concatenate([np.r_[np.full(int(rng.integers(150, 260)), k), np.full(int(rng.integers(0, 4)), -1)] for k in range(K)]).astype(int)
+    vals = rng.standard_normal(len(labels))
+    vals[int(rng.integers(len(vals)))] = gens.pick(rng, [np.nan, np.inf])
+    return {'kind': 'stat', 'labels': labels, 'values': vals, 'func': gens.pick(rng, ['mean', 'sum', 'max']), 'out': gens.pick(rng, [None, 'samples'])}
+
+
 def run_shard(ctx):
     rng = ctx.rng
     n = NCASES[ctx.tier] // ctx.nshards
     seen = set()
+    if ctx.shard % 4 == 0:
+        check_stat(ctx, huge_stat_case(rng))
+        ctx.count('very_long_recordings')
     for i in range(n):
         if ctx.out_of_time():
             break
